@@ -36,6 +36,8 @@ pub mod tls;
 mod ws;
 
 pub use task::RemoteTask;
+#[cfg(swimos_verif)]
+pub use task::verif_hooks;
 
 pub use net::{
     BadWarpUrl, ClientConnections, ConnectionError, ExternalConnections, Listener, ListenerError,
